@@ -270,11 +270,11 @@ func (w *WAL) mutateStateLocked(tx stateTxn) error {
 	}
 
 	// Commit updates to meta
-	vhook("mutate.beforeCommit", nil)
+	vhook("mutate.beforeCommit", w)
 	if err := w.metaDB.CommitState(newS.Persistent()); err != nil {
 		return err
 	}
-	vhook("mutate.afterCommit", nil)
+	vhook("mutate.afterCommit", w)
 
 	if postCommit != nil {
 		if err := postCommit(); err != nil {
@@ -282,9 +282,9 @@ func (w *WAL) mutateStateLocked(tx stateTxn) error {
 		}
 	}
 
-	vhook("mutate.beforeStore", nil)
+	vhook("mutate.beforeStore", w)
 	w.s.Store(&newS)
-	vhook("mutate.afterStore", nil)
+	vhook("mutate.afterStore", w)
 	s.finalizer.Store(fn)
 	return nil
 }
@@ -295,7 +295,7 @@ func (w *WAL) mutateStateLocked(tx stateTxn) error {
 // truncated concurrently.
 func (w *WAL) acquireState() (*state, func()) {
 	s := w.loadState()
-	vhook("acquireState.loaded", nil)
+	vhook("acquireState.loaded", w)
 	return s, s.acquire()
 }
 
@@ -319,7 +319,7 @@ func (w *WAL) FirstIndex() (uint64, error) {
 	if err := w.checkClosed(); err != nil {
 		return 0, err
 	}
-	vhook("FirstIndex.checked", nil)
+	vhook("FirstIndex.checked", w)
 	s, release := w.acquireState()
 	defer release()
 	return s.firstIndex(), nil
@@ -330,7 +330,7 @@ func (w *WAL) LastIndex() (uint64, error) {
 	if err := w.checkClosed(); err != nil {
 		return 0, err
 	}
-	vhook("LastIndex.checked", nil)
+	vhook("LastIndex.checked", w)
 	s, release := w.acquireState()
 	defer release()
 	return s.lastIndex(), nil
@@ -341,10 +341,10 @@ func (w *WAL) GetLog(index uint64, log *raft.Log) error {
 	if err := w.checkClosed(); err != nil {
 		return err
 	}
-	vhook("GetLog.checked", index)
+	vhook("GetLog.checked", w)
 	s, release := w.acquireState()
 	defer release()
-	vhook("GetLog.acquired", index)
+	vhook("GetLog.acquired", w)
 	w.metrics.IncrementCounter("log_entries_read", 1)
 
 	raw, err := s.getLog(index)
@@ -372,14 +372,14 @@ func (w *WAL) StoreLogs(logs []*raft.Log) error {
 		return nil
 	}
 
-	vhook("StoreLogs.checked", nil)
+	vhook("StoreLogs.checked", w)
 	w.writeMu.Lock()
 	defer w.writeMu.Unlock()
 
 	// Ensure queued rotation has completed before us if we raced with it for
 	// write lock.
 	w.awaitRotationLocked()
-	vhook("StoreLogs.locked", nil)
+	vhook("StoreLogs.locked", w)
 
 	s, release := w.acquireState()
 	defer release()
@@ -464,7 +464,7 @@ func (w *WAL) awaitRotationLocked() {
 		// We managed to race for writeMu with the background rotate operation which
 		// needs to complete first. Wait for it to complete.
 		w.writeMu.Unlock()
-		vhook("awaitRotation.wait", nil)
+		vhook("awaitRotation.wait", w)
 		<-awaitCh
 		w.writeMu.Lock()
 	}
@@ -482,14 +482,14 @@ func (w *WAL) DeleteRange(min uint64, max uint64) error {
 		return nil
 	}
 
-	vhook("DeleteRange.checked", nil)
+	vhook("DeleteRange.checked", w)
 	w.writeMu.Lock()
 	defer w.writeMu.Unlock()
 
 	// Ensure queued rotation has completed before us if we raced with it for
 	// write lock.
 	w.awaitRotationLocked()
-	vhook("DeleteRange.locked", nil)
+	vhook("DeleteRange.locked", w)
 
 	s, release := w.acquireState()
 	defer release()
@@ -540,7 +540,7 @@ func (w *WAL) Set(key []byte, val []byte) error {
 	if err := w.checkClosed(); err != nil {
 		return err
 	}
-	vhook("Set.checked", nil)
+	vhook("Set.checked", w)
 	w.metrics.IncrementCounter("stable_sets", 1)
 	return w.metaDB.SetStable(key, val)
 }
@@ -550,7 +550,7 @@ func (w *WAL) Get(key []byte) ([]byte, error) {
 	if err := w.checkClosed(); err != nil {
 		return nil, err
 	}
-	vhook("Get.checked", nil)
+	vhook("Get.checked", w)
 	w.metrics.IncrementCounter("stable_gets", 1)
 	return w.metaDB.GetStable(key)
 }
@@ -589,12 +589,13 @@ func (w *WAL) triggerRotateLocked(indexStart uint64) {
 	}
 	w.awaitRotate = make(chan struct{})
 	w.triggerRotate <- indexStart
+	vhook("rotate.triggered", w)
 }
 
 func (w *WAL) runRotate() {
 	for {
 		indexStart := <-w.triggerRotate
-		vhook("rotate.received", nil)
+		vhook("rotate.received", w)
 
 		w.writeMu.Lock()
 
@@ -606,7 +607,7 @@ func (w *WAL) runRotate() {
 		closed := atomic.LoadUint32(&w.closed)
 		if closed == 1 {
 			w.writeMu.Unlock()
-			vhook("rotate.exit", nil)
+			vhook("rotate.exit", w)
 			return
 		}
 
@@ -622,7 +623,7 @@ func (w *WAL) runRotate() {
 		// Now we are done, close the channel to unblock the waiting writer if there
 		// is one
 		close(done)
-		vhook("rotate.done", err)
+		vhook("rotate.done", w)
 	}
 }
 
@@ -930,12 +931,12 @@ func (w *WAL) Close() error {
 		// Only close once
 		return nil
 	}
-	vhook("Close.flagged", nil)
+	vhook("Close.flagged", w)
 
 	// Wait for writes
 	w.writeMu.Lock()
 	defer w.writeMu.Unlock()
-	vhook("Close.locked", nil)
+	vhook("Close.locked", w)
 
 	// It doesn't matter if there is a rotation scheduled because runRotate will
 	// exist when it sees we are closed anyway.
